@@ -291,6 +291,30 @@ func lineReader(c *Check) {
 	c.Fn(funcDisplayName(fn))
 	r := NewResolver(p)
 	name := "line reader " + fn.Name()
+	// only the line reader delivers lines: a second function of the package
+	// that sends strings (text it split itself, the rest of a rotated file)
+	// delivers text that did not pass the "terminated by a newline" test
+	for _, f := range p.AllRepoFuncs() {
+		if FuncPkgPath(f) != ModPath+"/"+pkgDir || f == fn {
+			continue
+		}
+		allInstrs(f, func(in ssa.Instruction) {
+			bad := false
+			switch x := in.(type) {
+			case *ssa.Send:
+				bad = isStringish(x.X.Type())
+			case *ssa.Select:
+				for _, st := range x.States {
+					if st.Dir == types.SendOnly && isStringish(st.Send.Type()) {
+						bad = true
+					}
+				}
+			}
+			if bad {
+				c.Bad("whole-lines-only", "strings sent on a channel in "+f.Name(), p.InstrPos(in), "lines are delivered by a function other than the line reader "+fn.Name()+": what it sends was not framed by the accumulating newline read, so an unterminated fragment can be delivered as a line (and the byte count of delivered lines no longer matches the resume offset)")
+			}
+		})
+	}
 	d, okD := read.Call.Args[1].(*ssa.Const)
 	c.Cond(okD && d.Int64() == '\n', "whole-lines-only", name+": delimiter", p.InstrPos(read), "ReadString('\\n')", "lines are not framed by the newline character")
 	var line, rerr ssa.Value
